@@ -56,6 +56,7 @@ type modelState struct {
 	lostReservation   map[string]string
 	lostReservationIP map[string]string
 	mixedUIDs         map[string]bool // identity -> its key held IPs recorded for two different incarnations at some instant
+	multiIP           map[string]bool // identity -> its key held several IPs at once at some instant
 }
 
 type filterWindow struct {
@@ -73,7 +74,7 @@ type filterWindow struct {
 
 func newModel() *modelState {
 	return &modelState{idents: map[string]*Ident{}, allocs: map[string]*Alloc{}, adminRel: map[string]bool{}, poolSize: map[string][]sizePoint{}, poolView: map[string][]sizePoint{},
-		filterWin: map[string]*filterWindow{}, foreignDelete: map[string]int{}, replicaHist: map[*App][]sizePoint{}, mixedUIDs: map[string]bool{}, lostReservation: map[string]string{}, lostReservationIP: map[string]string{}}
+		filterWin: map[string]*filterWindow{}, foreignDelete: map[string]int{}, replicaHist: map[*App][]sizePoint{}, mixedUIDs: map[string]bool{}, multiIP: map[string]bool{}, lostReservation: map[string]string{}, lostReservationIP: map[string]string{}}
 }
 
 func (w *World) livePodWithKey(key string) *PodInfo {
